@@ -623,6 +623,14 @@ func (en *Engine) load(st *State, addr Val, t types.Type) Val {
 			return mkField(pv, fa.Field, fa.Name, t)
 		}
 	}
+	// element of an array stored whole
+	if ia, ok := addr.(*IndexAddrV); ok {
+		if _, isPtr := ia.X.Type().Underlying().(*types.Pointer); isPtr {
+			if pv, ok := en.loadIfStored(st, ia.X); ok {
+				return mkIndexOfValue(pv, ia.I, t)
+			}
+		}
+	}
 	db := directBase(addr)
 	if a, ok := db.(*AllocV); ok {
 		if _, d := st.dirty[a.Key()]; !d && !hasSymbolicIndex(addr) {
@@ -671,6 +679,14 @@ func (en *Engine) loadIfStored(st *State, addr Val) (Val, bool) {
 		if pv, ok := en.loadIfStored(st, fa.X); ok {
 			ft := fa.Type().Underlying().(*types.Pointer).Elem()
 			return mkField(pv, fa.Field, fa.Name, ft), true
+		}
+	}
+	if ia, ok := addr.(*IndexAddrV); ok {
+		if _, isPtr := ia.X.Type().Underlying().(*types.Pointer); isPtr {
+			if pv, ok := en.loadIfStored(st, ia.X); ok {
+				et := ia.Type().Underlying().(*types.Pointer).Elem()
+				return mkIndexOfValue(pv, ia.I, et), true
+			}
 		}
 	}
 	return nil, false
@@ -1239,4 +1255,15 @@ func isSliceType(t types.Type) bool {
 	}
 	_, ok := t.Underlying().(*types.Slice)
 	return ok
+}
+
+// mkIndexOfValue: element i of an array value; an array loaded whole from memory is re-expressed as a load of the element.
+func mkIndexOfValue(arr Val, i Val, t types.Type) Val {
+	if l, ok := arr.(*LoadV); ok {
+		return mkLoad(mkIndexAddr(l.Addr, i, t), l.Epoch, t)
+	}
+	if isZeroAggregate(arr) {
+		return zeroOf(t)
+	}
+	return mkIndex(arr, i, t)
 }
